@@ -23,6 +23,15 @@
 (*   CounterFirst FALSE: the counter is incremented after the put                           *)
 (*   FreshPipe    FALSE: restart() keeps the old results channel                            *)
 (*   ResetClosed  FALSE: restart() carries _closed over to the new incarnation              *)
+(*   EnqChecksAlive FALSE: enqueue() of a remote worker tests the cached _dead flag instead *)
+(*                of is_alive(): a worker that died on its own silently accepts an enqueue  *)
+(*   WaitSwallowsBadResult FALSE: wait() of a process worker lets the error of rebuilding   *)
+(*                the child's final message escape: restart() of a worker whose child dies  *)
+(*                meanwhile by such an exception raises and replaces nothing                *)
+(*   AliveAsksServer FALSE: is_alive() of a remote worker stops asking the server once the  *)
+(*                final result has arrived: a child process that lingers after its report   *)
+(*                ("@linger": the target left a non-daemon thread behind) counts as dead,   *)
+(*                restart() replaces the object and abandons the running process            *)
 (*   ClosedGuard  FALSE: enqueue() of a process worker tests only is_alive() and relies on  *)
 (*                the send failing: on a closed but still running worker it raises OSError   *)
 (*                ("handle is closed") instead of WorkerClosedError                         *)
@@ -54,7 +63,8 @@ EXTENDS Naturals, Sequences, FiniteSets, TLC, PersistentProps
 
 CONSTANTS Kinds, DTypes, DArgsSet, DKwSet, Shapes, Ops, MaxSteps, MaxEnq, MaxRestarts,
           Settle, Hist, AllowBlock, TupleFix, CounterFirst, FreshPipe, ResetClosed, BlockAfterClose,
-          BusyTicks, SlowTicks, WaitT, TermT, WaitTruthful, TermOwnTimeout, ClosedGuard
+          BusyTicks, SlowTicks, WaitT, TermT, WaitTruthful, TermOwnTimeout, ClosedGuard,
+          EnqChecksAlive, WaitSwallowsBadResult, AliveAsksServer
 
 VARIABLES kind, dtype, dargs, dkw,               \* scenario
           ppc, pend, closed, pdead, late,        \* parent: pc, call in progress, _closed, _dead, "after close/death"
@@ -81,8 +91,9 @@ IsStuck(it) == Len(it.a) > 0 /\ it.a[1] = "@stuck"
 IsRaise(it) == Len(it.a) > 0 /\ it.a[1] = "@raise"
 IsBusy(it) == Len(it.a) > 0 /\ it.a[1] = "@busy"
 IsSlowRes(it) == Len(it.a) > 0 /\ it.a[1] = "@slowres"
+IsLinger(it) == Len(it.a) > 0 /\ it.a[1] = "@linger"
 FaultOf(it) == IF IsStuck(it) THEN "stuck" ELSE IF IsRaise(it) THEN "poison" ELSE IF IsBusy(it) THEN "busy"
-               ELSE IF IsSlowRes(it) THEN "slowres" ELSE "none"
+               ELSE IF IsSlowRes(it) THEN "slowres" ELSE IF IsLinger(it) THEN "linger" ELSE "none"
 
 \* what the target returns
 Target(a, kw) == IF IsSpecial(a) THEN [t |-> SpecTag(a[1]), a |-> <<>>, kw |-> <<>>]
@@ -108,7 +119,7 @@ Init == /\ kind \in Kinds /\ dtype \in DTypes /\ dargs \in DArgsSet /\ dkw \in D
 Alive == ~pdead /\ (cpc # "dead" \/ front = "slow")   \* what is_alive() returns now (remote: the frontend counts)
 FullDead == cpc = "dead" /\ front # "slow"
 \* a busy target / a slow frontend is around (or queued): the ordinary calls are not issued meanwhile
-Timed == \/ cpc = "busy" \/ front = "slow" \/ oldfront.st = "slow"
+Timed == \/ cpc = "busy" \/ front = "slow" \/ oldfront.st = "slow" \/ cpc = "linger"
          \/ (cpc \in {"run", "send"} /\ (IsBusy(cur) \/ IsSlowRes(cur)))
          \/ \E k \in 1..Len(argsQ) : IsBusy(argsQ[k]) \/ IsSlowRes(argsQ[k])
 \* steps that take no time are pending: no tick, no timeout before they are done
@@ -116,8 +127,9 @@ InstantPending == \/ cpc \in {"run", "send", "cleanup", "exiting"} \/ (cpc = "re
                   \/ (cpc = "busy" /\ busyleft = 0) \/ (front = "slow" /\ frontleft = 0)
                   \/ (oldfront.st = "slow" /\ frontleft = 0)
 SeeDeath == pdead' = (pdead \/ cpc = "dead")       \* is_alive() caches a death it sees
-Quiet == cpc \in {"dead", "stuck"} \/ (cpc = "recv" /\ argsQ = <<>>)
+Quiet == cpc \in {"dead", "stuck", "linger"} \/ (cpc = "recv" /\ argsQ = <<>>)
 HasStuck == \/ cpc = "stuck" \/ (cpc = "run" /\ IsStuck(cur))
+            \/ I.fault = "linger"          \* its process never exits by itself: nothing that joins it without a time limit
             \/ \E k \in 1..Len(argsQ) : IsStuck(argsQ[k])
 CanCall == ppc = "ready" /\ steps < MaxSteps /\ (Settle => Quiet) /\ ~Timed
 BoolStr(b) == IF b THEN "T" ELSE "F"
@@ -125,7 +137,7 @@ BoolStr(b) == IF b THEN "T" ELSE "F"
 \* <<results readable?, child state, number of readable results>>
 Pre == <<BoolStr(resQ # <<>>),
          IF front = "slow" THEN "slow" ELSE IF cpc = "dead" THEN "dead" ELSE IF cpc = "stuck" THEN "stuck"
-         ELSE IF cpc = "busy" THEN "busy" ELSE "idle", Len(resQ)>>
+         ELSE IF cpc = "busy" THEN "busy" ELSE IF cpc = "linger" THEN "linger" ELSE "idle", Len(resQ)>>
 LogP(op, out, pre) == /\ h' = (IF Hist THEN Append(h, <<op, out, pre[1], pre[2], pre[3]>>) ELSE h)
                       /\ steps' = steps + 1
 Log(op, out) == LogP(op, out, Pre)
@@ -139,13 +151,14 @@ CloseEff(al) == IF closed \/ (kind # "process" /\ ~al) THEN UNCHANGED <<closed, 
 \* ------------------------------------------------------------------ parent API ----
 DoEnqG(op, it, guard) ==
    /\ guard /\ nenq < MaxEnq
-   /\ LET ok == Alive /\ ~closed
+   /\ LET ok == (IF EnqChecksAlive \/ kind # "remote" THEN Alive ELSE ~pdead) /\ ~closed
           out == IF ok THEN "ok"
                  ELSE IF ~ClosedGuard /\ kind = "process" /\ Alive /\ closed THEN "raised:OSError" ELSE "WCE"
+          lateN == late \/ cpc = "dead"      \* after close()/wait(), after an observed death, or the child IS dead
       IN /\ argsQ' = (IF ok THEN Append(argsQ, it) ELSE argsQ)
          /\ I' = [I EXCEPT !.enq = (IF ok THEN Append(@, it) ELSE @),
-                           !.late = (IF late THEN Append(@, out) ELSE @),
-                           !.first = (IF @ = "none" /\ ~late THEN out ELSE @),
+                           !.late = (IF lateN THEN Append(@, out) ELSE @),
+                           !.first = (IF @ = "none" /\ ~lateN THEN out ELSE @),
                            !.fault = (IF ok /\ @ = "none" THEN FaultOf(it) ELSE @)]
          /\ Log(op, out)
    /\ SeeDeath /\ nenq' = nenq + 1
@@ -219,12 +232,12 @@ ApiCall == /\ "call" \in Ops /\ CanCall /\ nenq < MaxEnq /\ ~HasStuck
                 IF ok
                 THEN /\ argsQ' = Append(argsQ, it)
                      /\ I' = [I EXCEPT !.enq = Append(@, it), !.first = (IF @ = "none" /\ ~late THEN "ok" ELSE @)]
-                     /\ pend' = [op |-> "call", k |-> Len(I.enq) + 1, nread |-> NRead, late |-> BoolStr(late), pre |-> Pre]
+                     /\ pend' = [op |-> "call", k |-> Len(I.enq) + 1, nread |-> NRead, late |-> BoolStr(late \/ cpc = "dead"), pre |-> Pre]
                      /\ ppc' = "call"
                      /\ UNCHANGED <<steps, h>>
-                ELSE /\ I' = [I EXCEPT !.calls = Append(@, [k |-> 0, out |-> "WCE", v |-> Nil, nread |-> NRead, late |-> BoolStr(late)]),
-                                       !.late = (IF late THEN Append(@, "WCE") ELSE @),
-                                       !.first = (IF @ = "none" /\ ~late THEN "WCE" ELSE @)]
+                ELSE /\ I' = [I EXCEPT !.calls = Append(@, [k |-> 0, out |-> "WCE", v |-> Nil, nread |-> NRead, late |-> BoolStr(late \/ cpc = "dead")]),
+                                       !.late = (IF late \/ cpc = "dead" THEN Append(@, "WCE") ELSE @),
+                                       !.first = (IF @ = "none" /\ ~(late \/ cpc = "dead") THEN "WCE" ELSE @)]
                      /\ Log("call", "WCE")
                      /\ UNCHANGED <<argsQ, pend, ppc>>
            /\ SeeDeath /\ nenq' = nenq + 1
@@ -305,7 +318,13 @@ ApiRestart(op) ==
       THEN /\ CloseEff(TRUE) /\ ppc' = "rst" /\ pend' = [pend EXCEPT !.op = op, !.pre = Pre]
            /\ UNCHANGED <<scnv, pdead, late, childv, resQ, I, done, steps, nenq, nrst, h>>
       ELSE Reinit(op, Pre)
-RstEnd == /\ ppc = "rst" /\ cpc = "dead" /\ Reinit(pend.op, pend.pre)
+BadFinal == ~WaitSwallowsBadResult /\ kind = "process" /\ cres = "err"
+RstEnd == /\ ppc = "rst" /\ cpc = "dead" /\ ~BadFinal /\ Reinit(pend.op, pend.pre)
+\* the wrong variant: the exception of rebuilding the child's last message escapes from wait(), hence from restart()
+RstEndRaise == /\ ppc = "rst" /\ cpc = "dead" /\ BadFinal
+               /\ I' = [I EXCEPT !.rraised = Append(@, [still |-> "T"])]
+               /\ late' = TRUE /\ ppc' = "ready" /\ LogP(pend.op, "raised:TypeError", pend.pre)
+               /\ UNCHANGED <<scnv, pend, closed, pdead, childv, argsQ, resQ, done, nenq, nrst>>
 
 \* restart(timeout=t[, force=False]) on an uncooperative target: wait times out, terminate();
 \* a thread (or force=False) cannot be stopped: RuntimeError, nothing replaced;
@@ -385,21 +404,25 @@ Tick == /\ ~InstantPending
            \/ (ppc = "ready" /\ (cpc = "busy" \/ front = "slow" \/ oldfront.st = "slow"))
         /\ tleft' = Dec(tleft) /\ busyleft' = Dec(busyleft) /\ frontleft' = Dec(frontleft)
         /\ UNCHANGED <<scnv, parentv, childv, argsQ, resQ, front, fmsg, sockQ, oldfront>>
-CExit == /\ cpc = "exiting" /\ cpc' = "dead"
+CExit == /\ cpc = "exiting" /\ cpc' = (IF kind = "remote" /\ I.fault = "linger" THEN "linger" ELSE "dead")
          /\ UNCHANGED <<scnv, parentv, cur, val, counter, cres, apend, argsQ, resQ>>
 Child == (CRecv /\ UNCHANGED timev) \/ CRun \/ CSend \/ CCleanup \/ (CExit /\ UNCHANGED timev) \/ BusyEnd \/ FrontDeliver \/ OldFrontDeliver
 
 \* ------------------------------------------------------------------ restart(timeout=t) against time ----
 ApiEnqBusy == "enq@busy" \in Ops /\ I.fault = "none" /\ DoEnq("enq@busy", [a |-> <<"@busy">>, kw |-> <<>>])
+ApiEnqLinger == "enq@linger" \in Ops /\ kind = "remote" /\ I.fault = "none" /\ DoEnq("enq@linger", [a |-> <<"@linger">>, kw |-> <<>>])
 ApiEnqSlow == "enq@slow" \in Ops /\ kind = "remote" /\ I.fault = "none" /\ DoEnq("enq@slow", [a |-> <<"@slowres">>, kw |-> <<>>])
-FreshTimed == \/ (cpc = "busy" /\ busyleft = BusyTicks)
+FreshTimed == \/ (cpc = "busy" /\ busyleft = BusyTicks) \/ (cpc = "linger" /\ front = "idle")
               \/ (front = "slow" /\ frontleft = SlowTicks /\ cpc = "recv" /\ argsQ = <<>>)
 ResetTimed == /\ busyleft' = 0 /\ front' = "idle" /\ sockQ' = <<>> /\ tleft' = 0 /\ UNCHANGED <<fmsg, frontleft, oldfront>>
 \* restart(timeout=t) / restart(timeout=t, results_pipe=Pipe()), as Pool.restart_workers calls it
 ApiRestartK(op) ==
    /\ op \in Ops /\ ppc = "ready" /\ steps < MaxSteps /\ nrst < MaxRestarts /\ FreshTimed /\ oldfront.st = "none"
-   /\ CloseEff(TRUE) /\ ppc' = "k_wait" /\ tleft' = WaitT /\ pend' = [pend EXCEPT !.op = op, !.pre = Pre]
-   /\ UNCHANGED <<scnv, pdead, late, childv, resQ, I, done, steps, nenq, nrst, h, busyleft, front, fmsg, sockQ, frontleft, oldfront>>
+   /\ IF ~AliveAsksServer /\ cpc = "linger"
+      THEN \* the final result is in: the worker is taken for dead, the object re-initialised, the process abandoned
+           ReinitO(op, Pre, "alive") /\ ResetTimed
+      ELSE /\ CloseEff(TRUE) /\ ppc' = "k_wait" /\ tleft' = WaitT /\ pend' = [pend EXCEPT !.op = op, !.pre = Pre]
+           /\ UNCHANGED <<scnv, pdead, late, childv, resQ, I, done, steps, nenq, nrst, h, busyleft, front, fmsg, sockQ, frontleft, oldfront>>
 KDone == /\ ppc \in {"k_wait", "k_term"} /\ FullDead
          /\ Reinit(pend.op, pend.pre) /\ ResetTimed
 \* wait(t) timed out
@@ -423,13 +446,16 @@ KTermTimeout ==
            /\ LogP(pend.op, "raised:RuntimeError", pend.pre)
            /\ UNCHANGED <<scnv, pend, closed, pdead, childv, argsQ, resQ, done, nenq, nrst, timev>>
       ELSE Reinit(pend.op, pend.pre) /\ ResetTimed
-Timedv == ApiRestartK("restartK") \/ ApiRestartK("restartKP") \/ KDone \/ KWaitTimeout \/ KTermTimeout \/ Tick
+\* terminate(force=True) stops a lingering process within its grace
+KTermKill == /\ ppc = "k_term" /\ cpc = "linger" /\ cpc' = "dead"
+             /\ UNCHANGED <<scnv, parentv, cur, val, counter, cres, apend, argsQ, resQ, timev>>
+Timedv == KTermKill \/ ApiRestartK("restartK") \/ ApiRestartK("restartKP") \/ KDone \/ KWaitTimeout \/ KTermTimeout \/ Tick
 
 Parent == \/ ApiEnq \/ ApiEnqRaise \/ ApiEnqStuck \/ ApiClose \/ ApiAlive \/ ApiNextNB \/ ApiNextB \/ ApiNextBClosed \/ ApiNextBHang \/ NextEnd
           \/ ApiCall \/ CallEnd \/ ApiWait \/ WaitEnd \/ ApiWaitT \/ ApiTerm \/ TermEnd \/ ApiKill \/ ApiRelease
-          \/ ApiRestart("restart") \/ ApiRestart("restartP") \/ RstEnd
+          \/ ApiRestart("restart") \/ ApiRestart("restartP") \/ RstEnd \/ RstEndRaise
           \/ ApiRestartT("restartT") \/ ApiRestartT("restartTnf")
-          \/ Finish \/ FinEnd \/ ApiEnqBusy \/ ApiEnqSlow \/ ApiEnqBehindBusy
+          \/ Finish \/ FinEnd \/ ApiEnqBusy \/ ApiEnqSlow \/ ApiEnqLinger \/ ApiEnqBehindBusy
 Next == (Parent /\ UNCHANGED timev) \/ Child \/ Timedv
 Spec == Init /\ [][Next]_vars /\ WF_vars(Child) /\ WF_vars((NextEnd \/ CallEnd \/ WaitEnd \/ TermEnd \/ RstEnd \/ FinEnd) /\ UNCHANGED timev) /\ WF_vars(Timedv)
 
@@ -440,7 +466,7 @@ Rec == [scn |-> [kind |-> kind, dtype |-> dtype, dargs |-> dargs, dkw |-> dkw],
 
 TypeOK == /\ front \in {"idle", "slow"} /\ oldfront.st \in {"none", "slow"} /\ busyleft <= BusyTicks /\ frontleft <= SlowTicks
           /\ ppc \in {"k_wait", "k_term", "hung", "ready", "next", "call", "wait", "term", "rst", "fin", "done"}
-          /\ cpc \in {"recv", "run", "send", "stuck", "busy", "cleanup", "exiting", "dead"}
+          /\ cpc \in {"recv", "run", "send", "stuck", "busy", "linger", "cleanup", "exiting", "dead"}
           /\ cres \in {"none", "v", "err"}
           /\ counter <= MaxEnq /\ Len(argsQ) <= MaxEnq + 1 /\ Len(resQ) <= MaxEnq + 1
 Inv_C05_Stream == C05_Stream(Rec)
@@ -467,6 +493,9 @@ W_NoLongerArgs == ~(\E k \in 1..Len(I.enq) : Len(I.enq[k].a) > Len(dargs) /\ Len
 W_NoRestartUnread == ~(Len(done) > 0 /\ Len(done[1].enq) > Len(Valid(done[1].raw)) /\ Len(Valid(I.raw)) > 0)
 W_NoRestartRaised == ~(Len(I.rraised) > 0)
 W_NoRestartKilled == ~(Len(done) > 0 /\ done[1].fault = "kill")
+W_NoRestartOfLingering == ~(Len(done) > 0 /\ done[1].fault = "linger")
+W_NoEnqueueOnUnobservedDead == ~(Len(I.late) > 0 /\ ~late /\ cpc = "dead")
+W_NoRestartWhileChildDiesByError == ~(Len(done) > 0 /\ done[1].fault = "poison" /\ Len(done[1].late) = 0 /\ kind = "process")
 W_NoTimedRestartOfBusy == ~(Len(done) > 0 /\ done[1].fault = "busy")
 W_NoTimedRestartOfSlowFrontend == ~(Len(done) > 0 /\ done[1].fault = "slowres" /\ kind = "remote")
 W_NoSecondRestart == ~(Len(done) >= 2)
